@@ -132,3 +132,7 @@ Definition k07_1 (s : store) : bool :=
 Definition k07_2 (bs : bytes) (consumed : nat) : bool := (consumed <? length bs)%nat.
 (** C07-K3: the snapshot names the largest id (the id counter computation [id + 1] overflows) *)
 Definition k07_3 (sn : snapshot) : bool := names_max_id sn.
+(** C07-K4: the bytes contain the marker of a 64-bit length (253): the only way to announce a
+    length the process cannot allocate.  (Memory exhaustion is not modelled: the model decoder
+    rejects such bytes, the implementation's decoder allocates first and is aborted.) *)
+Definition k07_4 (bs : bytes) : bool := existsb (Z.eqb 253) bs.
